@@ -172,7 +172,10 @@ inductive HOp | alloc (n : Nat) | free (loc : Nat)
 
 def runOp (h : Heap) : HOp → Heap
   | .alloc n => (h.alloc n).2
-  | .free loc => (h.free loc).getD h       -- Python raises KeyError for a location that is not live: state unchanged
+  | .free loc => (h.free loc).getD h       -- totalisation: a release that fails in the model leaves the state unchanged.
+      -- NOT what Python does for a location that is not the start of a live chunk (`Heap.free(0)` twice raises nothing and
+      -- corrupts the tables): such histories are OUTSIDE the domain (`histOkB`, Proofs/MemMapFrees.lean); `SimOps` never
+      -- produces one (`simops_frees_live`)
 
 def OpOk : HOp → Prop
   | .alloc n => 0 < n
